@@ -101,6 +101,20 @@ def audit_sources():
 
 
 def build_all(prop, tier):
+    """serialised across concurrent checks: they share coq/ and .build/"""
+    import fcntl
+    global LOGS
+    LOGS = os.path.join(BUILD, "logs", prop)
+    os.makedirs(LOGS, exist_ok=True)
+    with open(os.path.join(BUILD, "lock"), "w") as lk:
+        fcntl.flock(lk, fcntl.LOCK_EX)
+        try:
+            return _build_all(prop, tier)
+        finally:
+            fcntl.flock(lk, fcntl.LOCK_UN)
+
+
+def _build_all(prop, tier):
     """-> dict(model_ok, harness_ok, proof_ok, obligations, discharged, details)"""
     os.makedirs(LOGS, exist_ok=True)
     os.makedirs(os.path.join(BUILD, "modeld"), exist_ok=True)
